@@ -415,6 +415,42 @@ def _props_strategy(draw, cfg, depth, gen):
     return props
 
 
+def repair_refs(new, old_index):
+    """After a subtree was removed: re-define dangling refs at their first use (build order)."""
+    defined = set()
+
+    def visit(node):
+        if isinstance(node, list):
+            for i, x in enumerate(node):
+                node[i] = visit(x)
+            return node
+        if not isinstance(node, dict):
+            return node
+        if "ref" in node and "kind" not in node:
+            if node["ref"] in defined:
+                return node
+            return visit(copy.deepcopy(old_index[node["ref"]]))
+        if "kind" not in node:  # mapping of key -> recipe | names
+            for k in list(node):
+                node[k] = visit(node[k])
+            return node
+        if node.get("base"):
+            node["base"] = visit(node["base"])
+        for k in list(node.get("sub", {})):
+            node["sub"][k] = visit(node["sub"][k])
+        for p in node.get("props") or []:
+            p["element"] = visit(p["element"])
+        if "elements" in node:
+            node["elements"] = [visit(e) for e in node["elements"]]
+        if "element" in node:
+            node["element"] = visit(node["element"])
+        if "id" in node:
+            defined.add(node["id"])
+        return node
+
+    return visit(new)
+
+
 # ----------------------------------------------------------------- mutate
 @st.composite
 def mutate(draw, recipe):
@@ -445,8 +481,11 @@ def mutate(draw, recipe):
         k = draw(st.sampled_from(sorted(kw)))
         del kw[k]
     elif op == "lookalike-kw":
+        # bool lookalikes only for literal keywords; counts/bounds only int<->float
         cands = [(k, alt) for k in sorted(kw) for alt in jv.lookalike(kw[k])
-                 if k not in ("uniqueItems",)]
+                 if k in ("default", "const", "enum")
+                 or (k not in ("uniqueItems", "required", "description", "format", "pattern")
+                     and not isinstance(alt, bool))]
         if cands:
             k, alt = draw(st.sampled_from(cands))
             kw[k] = alt
@@ -484,4 +523,5 @@ def mutate(draw, recipe):
         node["elements"] = list(reversed(node["elements"]))
     elif op == "rename-class":
         node["name"] = node["name"] + "X"
+    new = repair_refs(new, index(recipe))
     return new, op
